@@ -24,6 +24,8 @@ def parser_eval(ctx: Ctx) -> Evaluator:
     def build():
         def pol(fi: FunctionInfo, depth: int) -> bool:
             definitional = fi.kind == 'property' and fi.cls is not None and not any(b.name == 'HplAstObject' for b in fi.cls.mro())
+            if fi.cls is not None and fi.cls.name == 'HplAstObject' and fi.kind == 'method' and fi.name not in ('but', 'cast') and depth < 3 and default_inline(fi, depth):
+                return True   # small helpers of the AST root (annotate-and-return-self, ...)
             if fi.name in ('_convert_unary_operator', '_convert_binary_operator', '_convert_function_def'):
                 return False  # table lookups: summarised by G3 / T1 / T2, matched by name in F1
             if fi.module.name == 'hpl.parser' and fi.cls is None and depth < 4 and sum(1 for x in ast.walk(fi.node) if isinstance(x, ast.stmt)) <= 8 \
